@@ -424,11 +424,15 @@ class SpaceImpl:
             raise ValueError("layer")
         data = np.asarray(vals, dtype=int).reshape(self.w, self.h)
         if self.layer is None:
+            # the dtype is invisible to the protocol (values are small integers either way): float layers — the
+            # library's default dtype — are used for every second value vector so that in-place arithmetic on
+            # the layer's own array during drawing would show
+            dt = float if sum(vals) % 2 == 0 else int
             if self.fam in GRID_LEGACY:
-                self.layer = m["ms"].PropertyLayer("v", self.w, self.h, 0, dtype=int)
+                self.layer = m["ms"].PropertyLayer("v", self.w, self.h, dt(0), dtype=dt)
                 self.space.add_property_layer(self.layer)
             else:
-                self.layer = m["NewLayer"]("v", (self.w, self.h), default_value=0, dtype=int)
+                self.layer = m["NewLayer"]("v", (self.w, self.h), default_value=dt(0), dtype=dt)
                 self.space.add_property_layer(self.layer)
         self.layer.data[:] = data
         return "ok"
@@ -454,6 +458,9 @@ class SpaceImpl:
             except Exception as e:
                 self.trace.append(("layer", data.tolist(), mode, None, exc_tok(e)))
                 return exc_tok(e)
+        if not np.array_equal(self.layer.data, data):
+            self.trace.append(("layer-mutated", data.tolist(), np.asarray(self.layer.data).tolist()))
+        data = data.astype(int)
         cmap = m["matplotlib"].colormaps["viridis"]
         norm = m["Normalize"](vmin, vmax)
         cands = list(range(vmin, vmax + 1))
@@ -779,6 +786,8 @@ def gen_space(R, tier):
             mode = mode[:-4]
         lines.append("layer " + " ".join(map(str, vals)))
         lines.append(f"drawlayer {mode}")
+        if R.random() < 0.5:
+            lines.append(f"drawlayer {R.choice([mode, 'color', 'cmap'])}")  # drawing twice shows the same values
     for _ in range(R.randint(0, 6)):
         k = R.random()
         if k < 0.3 and where:
@@ -1019,6 +1028,8 @@ def oracle(sc, obs):
             got = sorted(fmt_dict(r) for r in rows)
             if got != want:
                 bad.append(f"altair-one-row-per-agent: rows {got} but the agents in the space demand {want}")
+        elif kind == "layer-mutated":
+            bad.append(f"layer-mutated: drawing the property layer changed the model's layer values from {ev[1]} to {ev[2]}")
         elif kind == "layer":
             _, data, mode, res, err = ev
             if err is not None:
